@@ -70,6 +70,8 @@ func H_C17_matcher_errors() {
 	}
 	stamp := vxrt.FSStamp()
 	before := dumpDir(dir)
+	_ = isCI
+	failedBefore := testEvents.items[erred]
 	t := newT("TestM")
 	doc := `{"a":1}`
 	switch api {
@@ -93,6 +95,7 @@ func H_C17_matcher_errors() {
 		c.MatchStandaloneJSON(t, doc, jm...)
 	}
 	vxrt.Assert(len(t.errors) == 1 && len(t.logs) == 0, "C17:exactly-one-failure")
+	vxrt.Assert(testEvents.items[erred] == failedBefore+1, "C17:failure-is-counted-once")
 	vxrt.Assert(vxrt.FSStamp() == stamp && vxrt.Eq(dumpDir(dir), before), "C17:nothing-written")
 	msg, _ := t.errors[0].(string)
 	named := true
